@@ -266,6 +266,10 @@ class Scanner:
             if r[0] == 'call' and r[1] == S.R_NEW:
                 lo = self.V.F.try_fold(r[2][0]); hi = self.V.F.try_fold(r[2][1])
                 if lo and hi and lo[0] == 'int' and hi[0] == 'int':
+                    if x == self.var:
+                        # membership of the input itself: clip the region (O(log n)) instead of evaluating a function
+                        inside = ivl.clip(st['region'], lo[2], hi[2])
+                        return inside if outcome else ivl.diff(st['region'], inside, self.tlo, self.thi)
                     f = self.affine(x, region=st['region'])
                     inside = ivl.intersect(f.cmp_region('Ge', lo[2]), f.cmp_region('Le', hi[2]))
                     return inside if outcome else ivl.diff(st['region'], inside, self.tlo, self.thi)
